@@ -396,7 +396,23 @@ def run_solver_case(ctx, case):
                         ctx.count("solver_given_a_dispatcher_whose_filter_failed_once")
                 S = solver.solve(instance, d)
             else:
-                S = solver(instance)
+                if case["seed"] % 5 == 2:
+                    # the system clock is set back while the solver runs (NTP, a VM resumed): the
+                    # elapsed time is still a duration
+                    real_time = time.time
+                    t_fake = [real_time()]
+
+                    def stepping_back():
+                        t_fake[0] -= 3600.0
+                        return t_fake[0]
+                    time.time = stepping_back
+                    try:
+                        S = solver(instance)
+                    finally:
+                        time.time = real_time
+                    ctx.count("solver_calls_with_the_wall_clock_set_back")
+                else:
+                    S = solver(instance)
         except Exception as e:
             r = state["tracker"].r if state["tracker"] else ref0
             ctx.violation("c04_solver_raised",
